@@ -270,6 +270,9 @@ def P6(m, R):
                 'cursor %s starts at %s' % (cur, norm(inits[0].value) if inits else None), construct=cons_base + ' cursor init')
         mids = [(n, p) for n, p in slices if p.slice.upper is not None]
         tails = [(n, p) for n, p in slices if p.slice.upper is None]
+        if not mids and any(isinstance(x, ast.For) for x in f.walk()):
+            R.viol(f, f.node, 'inside the loop no text slice [%s:<position>] is appended: the text between two positions is emitted only after all sequences' % cur,
+                   construct=cons_base + ' slice')
         for n, p in mids:
             key = norm(p.slice.upper)
             problems = []
